@@ -432,8 +432,8 @@ func ParseParamField(s string) (string, map[string]string, error) {
 // RFC 2047
 
 // DecodeWords decodes RFC 2047 encoded-words in s. Whitespace between two adjacent
-// encoded-words is dropped. Bytes are returned as they are (no charset conversion); the second
-// result lists the charsets seen.
+// encoded-words is dropped. Words labelled ISO-8859-1 or US-ASCII are interpreted accordingly (see
+// interpret), all other bytes are returned as they are; the second result lists the charsets seen.
 func DecodeWords(s string) (string, []string) {
 	var out strings.Builder
 	var charsets []string
@@ -570,15 +570,47 @@ func decodeWord(w string) (string, string, bool) {
 				sb.WriteByte(t[k])
 			}
 		}
-		return sb.String(), strings.ToLower(parts[0]), true
+		return interpret(sb.String(), parts[0]), strings.ToLower(parts[0]), true
 	case "b", "B":
 		d, ok := b64Strict(parts[2])
 		if !ok {
 			return "", "", false
 		}
-		return string(d), strings.ToLower(parts[0]), true
+		return interpret(string(d), parts[0]), strings.ToLower(parts[0]), true
 	}
 	return "", "", false
+}
+
+// interpret maps the bytes of an encoded-word to text according to its charset label, for the
+// labels whose meaning is fixed without tables: ISO-8859-1 (every byte is the code point of the
+// same number) and US-ASCII (bytes above 0x7f have no meaning: U+FFFD). Everything else, UTF-8
+// first of all, is returned as it is. A word whose label does not fit its bytes (UTF-8 text
+// labelled ISO-8859-1) therefore decodes to something else than the text that was set.
+func interpret(raw, charset string) string {
+	cs := strings.ToLower(charset)
+	if k := strings.IndexByte(cs, '*'); k >= 0 { // RFC 2231 language suffix
+		cs = cs[:k]
+	}
+	var latin1 bool
+	switch cs {
+	case "iso-8859-1", "iso_8859-1", "latin1", "l1", "iso8859-1":
+		latin1 = true
+	case "us-ascii", "ascii", "ansi_x3.4-1968":
+	default:
+		return raw
+	}
+	var sb strings.Builder
+	for i := 0; i < len(raw); i++ {
+		switch {
+		case raw[i] < 0x80:
+			sb.WriteByte(raw[i])
+		case latin1:
+			sb.WriteRune(rune(raw[i]))
+		default:
+			sb.WriteRune('\uFFFD')
+		}
+	}
+	return sb.String()
 }
 
 func unhex(c byte) (byte, bool) {
